@@ -188,8 +188,9 @@ PENDING_REASON = 'check not registered yet in this revision of /verif (implement
 # property -> properties whose mechanisms it rests on (their rule instances are evaluated under it as well)
 # C13 (port equivalence): every rule of the deterministic properties is evaluated on both packages and the verdicts of sibling
 # functions (same qualified name) are compared; a breach on one side only means the two packages disagree (a breach on both
-# sides is the other property's business, not a disagreement).  The random-sampling properties C16 / C19 are left out.
-SIBLING_SOURCES = ['C01', 'C02', 'C03', 'C04', 'C05', 'C06', 'C07', 'C09', 'C10', 'C11', 'C12', 'C14', 'C15', 'C17', 'C18', 'C20']
+# sides is the other property's business, not a disagreement).  The random-sampling property C16 is left out; C19 is in for its
+# deterministic structure (rows and selectors of sample / density_matrix, povm, snapshots).
+SIBLING_SOURCES = ['C01', 'C02', 'C03', 'C04', 'C05', 'C06', 'C07', 'C09', 'C10', 'C11', 'C12', 'C14', 'C15', 'C17', 'C18', 'C19', 'C20']
 
 DEPENDS = {
     'C02': ['C01'],
